@@ -102,6 +102,10 @@ def run_case(case, workdir):
         pck = PlotfileCooker(path)
         sels = [("name", names[1], [1]), ("names", [names[2], names[0]], [2, 0]), ("slice", slice(0, 2), [0, 1]),
                 ("names_adjacent_descending", [names[1], names[0]], [1, 0]), ("list_adjacent_descending", [2, 1], [2, 1])]
+        # slices of different widths and offsets following one another in one process: a one-field slice, a longer one that
+        # starts at 0, an open-ended one, a strided one
+        sels += [("slice_one", slice(1, 2), [1]), ("slice_three", slice(0, 3), [0, 1, 2]), ("slice_open", slice(1, None), list(range(1, len(names)))),
+                 ("slice_step", slice(0, None, 2), list(range(0, len(names), 2)))]
         if len(names) >= 8:
             # a run of adjacent fields followed by a further one, an unsorted array
             sels += [("list_run_then_far", [2, 3, 7], [2, 3, 7]), ("names_run_then_far", [names[0], names[1], names[2], names[5]], [0, 1, 2, 5]),
